@@ -45,6 +45,20 @@ CHECKS = {
             "Trusted: vp/ref/bspl.py (exact Boehm), vp/ref/hier.py. One open known finding (THB virtual prolongators on "
             ">= 3 levels) is matched only when pyiga still computes exactly the known-wrong formula.",
             "DESIGN.md section 2, C05"),
+    "C06": ("translation_validation",
+            "generated programs (typed grammar over the vform language, Hypothesis) evaluated by a source-semantics "
+            "interpreter and by an interpreter of the finalized form in emitted order; exhaustive {0,1}^m grid evaluation in "
+            "exact integers for the multilinear operator expansions",
+            "Translation validation of the vform middle-end by generated programs, without compilation: for every generated "
+            "form the integrand value at every Gauss node and for every pair of basis functions, computed by an "
+            "independent interpreter (second-order jet arithmetic, physical derivatives by the chain rule), is compared with "
+            "the value of the finalized expressions executed in the emitted order (precomputed variables, kernel "
+            "variables, kernel expressions); use-before-definition, basis-function dependence of precomputed variables "
+            "and nodes outside the back-end's dispatch table fail by construction. det/adjugate/minor/cross/MatVec/MatMat/"
+            "tr/T/outer/inner expansions are decided exhaustively on {0,1}^m (multilinear => polynomial identity).",
+            "Trusted: vp/ref/forms.py, vp/ref/target.py, vp/ref/geo.py. Environments are real Gauss nodes of generated "
+            "spaces/geometries rather than abstract random jets (deviation from the first design, see DESIGN.md).",
+            "DESIGN.md section 2, C06"),
     "C07": ("exploration",
             "Hypothesis-generated spline/NURBS/user/composed functions, points and operation arguments; oracle = "
             "independent tensor-product Cox-de Boor + quotient-rule reference and the documented formulas",
